@@ -1,13 +1,21 @@
-(* Properties/C13.v — comparison modes.  HASH results are equal iff the bytes
-   are equal (the model's hash is injective; SHA-256 collision freedom is the
-   trusted counterpart), METADATA results iff size and mtime are equal; the
-   comparison routines return exactly these results for the file on disk, the
-   hash memo included as long as its invariant holds. *)
+(* Properties/C13.v — comparison modes.  HASH results are equal iff the bytes are equal (the
+   model's hash is injective; SHA-256 collision freedom is the trusted counterpart), METADATA
+   results iff size and mtime are equal; the comparison routines return exactly these results
+   for the file on disk.  The hash memo: C13_memo_invariant_along_every_run
+   (Proofs/HashMemo*.v) - the invariant HInv (HashOk + "no entry keyed built for a path that is
+   not claimed") holds from the world in which a build starts user code through the run of
+   EVERY program; hence (C13_recorded_hash_of_a_rebuilt_output, C13_recorded_hash_of_a_read)
+   the HASH result recorded for every rebuilt output is the hash of the file as its function
+   left it, and every recorded HASH read carries the hash of the bytes the reader saw.
+   History: with the code as first pinned this invariant was FALSE (defect D15, found by this
+   proof attempt; HashMemoEx.v keeps the old replay routine and the failing run as
+   documentation and the repaired runs as regression examples). *)
 From Coq Require Import List String NArith ZArith Bool.
 From FB.Base Require Import PyVal Fs.
 From FB.Gen Require Import JsonUtilGen.
-From FB.Model Require Import Types Monad SimpleOps Builder.
-From FB.Proofs Require Import CmpLaws.
+From FB.Spec Require Import Prog.
+From FB.Model Require Import Types Monad SimpleOps Builder Persist Build Run.
+From FB.Proofs Require Import CmpLaws BuildFileLaws HashMemoInv HashMemoRun.
 Import ListNotations.
 
 (* the test every cache decision applies to comparison results is JSON equality *)
@@ -42,6 +50,33 @@ Theorem C13_memo_transparent : forall p w w' r, HashOk w -> file_hash p w = (w',
   | None => (exists e, r = inr (XOS e))
   end.
 Proof. exact file_hash_spec. Qed.
+
+Theorem C13_memo_invariant_along_every_run : forall pr target subs w w' r,
+  HInv w -> old_keys_ok (w_old w) -> TSA target w -> run pr target subs w = (w', r) -> HInv w'.
+Proof. exact run_HInv. Qed.
+
+Theorem C13_memo_invariant_from_build_start : forall cf f nm svers w root old w1 ccd w2 res,
+  cache_of_json (f_json f) = ReadOk old ->
+  make_dirs (dirname cf) (start_world w cf old nm svers) = (w1, inl ccd) ->
+  run root None [] (set_log (LInvoke "<root>" None PNone PNone :: w_log w1) w1) = (w2, res) ->
+  HInv w2.
+Proof. exact build_from_cache_file_HInv. Qed.
+
+Theorem C13_recorded_hash_of_a_rebuilt_output : forall p f sa skw (fn : path -> pyval -> pyval -> prog) w w1 w' v o,
+  HInv w -> old_keys_ok (w_old w) ->
+  bf_setup p HASH f sa skw w = (w1, inl None) ->
+  bf_rebuild p HASH f sa skw (fun p' a k w0 => run (fn p' a k) (Some p') [] w0) w1 = (w', (inl v, Some o)) ->
+  exists fl subs, lookup (w_fs w') p = Some (NFile fl) /\
+                  o = OBuildFile p HASH f sa skw subs v (hash_of (f_bytes fl)) false false.
+Proof. exact every_rebuilt_output_hash. Qed.
+
+Theorem C13_recorded_hash_of_a_read : forall p w w1 v o,
+  HashOk w -> m_query (QRead p HASH) w = (w1, (inl v, o)) ->
+  exists fl, lookup (w_fs w) p = Some (NFile fl) /\ lookup (w_fs w1) p = Some (NFile fl) /\
+             v = hash_of (f_bytes fl) /\
+             o = Some (OSimple (QRead p HASH) (hash_of (f_bytes fl)) None) /\
+             user_answer (QRead p HASH) (inl v) w1 = inl (PStr (f_bytes fl)).
+Proof. exact read_records_hash_of_bytes_seen. Qed.
 
 Example C13_nonvacuous : HashOk {| w_fs := []; w_clock := 0; w_nextid := 1;
      w_old := {| c_name := ""; c_files := []; c_subs := []; c_dirs := []; c_fvers := PDict []; c_built := [] |};
